@@ -8,11 +8,13 @@ STD_NOTE = ('Trusted: Coq 8.16.1 kernel (vm_compute used, no native_compute), Fl
             'reported by Print Assumptions (listed in the evidence file), the hand-written Gallina model and the '
             'correspondence harness that ties it to /repo by differential execution on every run.')
 
+ENABLED = set((Path(__file__).parent / 'enabled.txt').read_text().split())
+
 CHECKS = {}
 for f in sorted((Path(__file__).parent / 'props').glob('c[0-9][0-9].py')):
     mod = importlib.import_module(f'harness.props.{f.stem}')
     m = getattr(mod, 'MANIFEST', None)
-    if m:
+    if m and f.stem.upper() in ENABLED:
         m.setdefault('note', STD_NOTE)
         CHECKS[f.stem.upper()] = m
 
